@@ -1768,7 +1768,13 @@ class Method:
             else:
                 params.add(body)
 
-        return set(self.input.fields) - params
+        # The annotation names fields as the proto does; the keys of
+        # `input.fields` carry a trailing underscore on reserved words.
+        return {
+            name
+            for name, field in self.input.fields.items()
+            if field.field_pb.name not in params
+        }
 
     @property
     def body_fields(self) -> Mapping[str, Field]:
